@@ -3,3 +3,4 @@ import Thanos.Driver.Frontend
 import Thanos.Props.C41
 import Thanos.Props.C43
 import Thanos.Props.C42
+import Thanos.Props.C44
